@@ -16,6 +16,9 @@ pub fn fails_same(c: &Case, classes: &[String], run: &dyn Fn(&Case) -> Option<Ru
 pub fn shrink(case: &Case, classes: &[String], run: &dyn Fn(&Case) -> Option<RunOut>, budget: usize) -> Case {
     let mut best = case.clone();
     let mut tries = 0usize;
+    if best.conc.is_some() {
+        best = shrink_conc(best, classes, run, &mut tries, budget);
+    }
     let mut progress = true;
     while progress && tries < budget {
         progress = false;
@@ -94,6 +97,156 @@ pub fn shrink(case: &Case, classes: &[String], run: &dyn Fn(&Case) -> Option<Run
             if fails_same(&c, classes, run) {
                 best = c;
                 progress = true;
+            }
+        }
+    }
+    best
+}
+
+/// Concurrent cases: drop rounds, reader threads, requests, cancels and delays while the same
+/// violation class persists (the schedule is re-explored from the case's scheduler seed every
+/// time), then look for a failing schedule with fewer context switches.
+fn shrink_conc(case: Case, classes: &[String], run: &dyn Fn(&Case) -> Option<RunOut>, tries: &mut usize, budget: usize) -> Case {
+    let mut best = case;
+    best.conc.as_mut().unwrap().choices.clear();
+    let attempt = |best: &mut Case, cand: Case, tries: &mut usize| -> bool {
+        if *tries >= budget {
+            return false;
+        }
+        *tries += 1;
+        if fails_same(&cand, classes, run) {
+            *best = cand;
+            true
+        } else {
+            false
+        }
+    };
+    let mut progress = true;
+    while progress && *tries < budget {
+        progress = false;
+        // rounds: from the end, then anywhere
+        let mut i = best.conc.as_ref().unwrap().rounds.len();
+        while i > 0 && best.conc.as_ref().unwrap().rounds.len() > 1 {
+            i -= 1;
+            let mut c = best.clone();
+            c.conc.as_mut().unwrap().rounds.remove(i);
+            if attempt(&mut best, c, tries) {
+                progress = true;
+            }
+        }
+        // reader threads of each round (cancels refer to reader indices)
+        for ri in 0..best.conc.as_ref().unwrap().rounds.len() {
+            let mut t = 0;
+            while t < best.conc.as_ref().unwrap().rounds[ri].readers.len() {
+                let mut c = best.clone();
+                {
+                    let r = &mut c.conc.as_mut().unwrap().rounds[ri];
+                    r.readers.remove(t);
+                    r.cancels.retain(|(x, _)| *x as usize != t);
+                    for (x, _) in r.cancels.iter_mut() {
+                        if *x as usize > t {
+                            *x -= 1;
+                        }
+                    }
+                }
+                if attempt(&mut best, c, tries) {
+                    progress = true;
+                } else {
+                    t += 1;
+                }
+            }
+        }
+        // requests
+        for ri in 0..best.conc.as_ref().unwrap().rounds.len() {
+            for t in 0..best.conc.as_ref().unwrap().rounds[ri].readers.len() {
+                let mut q = 0;
+                while q < best.conc.as_ref().unwrap().rounds[ri].readers[t].len() {
+                    let mut c = best.clone();
+                    c.conc.as_mut().unwrap().rounds[ri].readers[t].remove(q);
+                    if attempt(&mut best, c, tries) {
+                        progress = true;
+                    } else {
+                        q += 1;
+                    }
+                }
+            }
+        }
+        // cancels, writer placement, durabilities
+        for ri in 0..best.conc.as_ref().unwrap().rounds.len() {
+            let mut k = 0;
+            while k < best.conc.as_ref().unwrap().rounds[ri].cancels.len() {
+                let mut c = best.clone();
+                c.conc.as_mut().unwrap().rounds[ri].cancels.remove(k);
+                if attempt(&mut best, c, tries) {
+                    progress = true;
+                } else {
+                    k += 1;
+                }
+            }
+            let r = best.conc.as_ref().unwrap().rounds[ri].clone();
+            if r.writer_after != 0 {
+                let mut c = best.clone();
+                c.conc.as_mut().unwrap().rounds[ri].writer_after = 0;
+                if attempt(&mut best, c, tries) {
+                    progress = true;
+                }
+            }
+            if r.writer_delay != 0 {
+                let mut c = best.clone();
+                c.conc.as_mut().unwrap().rounds[ri].writer_delay = 0;
+                if attempt(&mut best, c, tries) {
+                    progress = true;
+                }
+            }
+        }
+        let mut k = 0;
+        while k < best.conc.as_ref().unwrap().field_durs.len() {
+            let mut c = best.clone();
+            c.conc.as_mut().unwrap().field_durs.remove(k);
+            if attempt(&mut best, c, tries) {
+                progress = true;
+            } else {
+                k += 1;
+            }
+        }
+        if best.conc.as_ref().unwrap().spurious_pct != 0 {
+            let mut c = best.clone();
+            c.conc.as_mut().unwrap().spurious_pct = 0;
+            if attempt(&mut best, c, tries) {
+                progress = true;
+            }
+        }
+    }
+    // schedule: among a few scheduler seeds / strategies that still fail, keep the one with the
+    // fewest context switches
+    let switches = |c: &Case| -> Option<u64> {
+        if !c.prog.valid() {
+            return None;
+        }
+        let o = run(c)?;
+        if o.viol.iter().any(|v| classes.contains(&v.class)) { Some(o.stats.get("context_switches").copied().unwrap_or(u64::MAX)) } else { None }
+    };
+    if let Some(mut best_sw) = switches(&best) {
+        let seed0 = best.conc.as_ref().unwrap().sched_seed;
+        for (strategy, stay) in [("rr", 0u32), ("random", 95), ("random", 85)] {
+            for d in 0..12u64 {
+                if *tries >= budget {
+                    break;
+                }
+                *tries += 1;
+                let mut c = best.clone();
+                {
+                    let cc = c.conc.as_mut().unwrap();
+                    cc.strategy = strategy.to_string();
+                    cc.stay_pct = stay;
+                    cc.sched_seed = seed0.wrapping_add(d);
+                }
+                if let Some(sw) = switches(&c) {
+                    if sw < best_sw {
+                        best_sw = sw;
+                        best = c;
+                    }
+                }
             }
         }
     }
